@@ -9,10 +9,12 @@ VERIF = os.path.dirname(os.path.dirname(os.path.abspath(__file__)))
 COMMON_NOTE = (
     "Trusted: Coq 8.16.1 kernel (vm_compute in reflection lemmas, no native_compute); every property theorem's "
     "Print Assumptions is audited on each run and must be 'Closed under the global context' (no axioms, no Admitted); "
-    "extraction via ExtrOcamlBasic+ExtrOcamlString only with Z/Q kept as extracted inductives; tools/translate.py "
-    "(regenerates coq/gen/*.v from /repo on every run, fail closed); the hand-written Gallina model of the algorithms "
-    "is tied to the code only by the correspondence run (same cases on the extracted model and on the real package), "
-    "so agreement outside the explored cases is assumed; CPython int/float/re/str-formatting are modelled, not verified. ")
+    "extraction via ExtrOcamlBasic+ExtrOcamlString only with Z/Q kept as extracted inductives; tools/translate*.py "
+    "(regenerate coq/gen/*.v from /repo on every run, fail closed: data tables, regexes, cache keys, write effects, and the bodies of the "
+    "calendar helpers and of the Duration and TimeRecurrence methods, which are proved equal to the model); the rest of the hand-written "
+    "Gallina model (TimePoint methods, parsers, dumper, CLI) is tied to the code by the correspondence run (same cases on the extracted "
+    "model and on the real package), so agreement outside the explored cases is assumed there; CPython int/float/re/str-formatting are "
+    "modelled, not verified. ")
 
 CLAIMED = {
     "C01": dict(
